@@ -576,3 +576,6 @@ def workload(ctx):
     ctx.floor("bilinear_checks", 3000)
     ctx.floor("eq_pairs", 20000)
     ctx.floor("vector_axioms", 500)
+
+
+RULE = RULE + '  Later additions: one object as both operands; default-metric spaces with thirds as coefficients; Gaussian-integer coefficients.'
